@@ -128,6 +128,7 @@ class Workspace:
         os.makedirs(self.root, exist_ok=True)
         self.ini = os.path.join(self.root, "config.ini")
         self.ods = os.path.join(self.root, "input.ods")
+        self.layout: Optional[Dict[str, Any]] = None
         self.n = 0
 
     def new_out(self) -> str:
@@ -147,6 +148,10 @@ class Workspace:
     ) -> Dict[str, Dict[str, int]]:
         exchanges = sorted({e for h in histories.values() for e in h["exchanges"]})
         holders = sorted({x for h in histories.values() for x in h["holders"]})
+        if layout is None:
+            # every CLI workload also varies the column layout / table order of its input sheets
+            layout = ods_io.derived_layout(histories)
+        self.layout = layout
         ods_io.write_ini(self.ini, config_assets or sorted(histories), exchanges, holders, layout, accounting_methods)
         return ods_io.write_input(self.ods, histories, layout, rng, sheet_order)
 
